@@ -37,6 +37,20 @@ def _time_guard(ctx, body, guard, stored_pred, incoming_pred):
     return atoms.guard_implies(ctx.facts, body, guard, pred)
 
 
+def _extra_atoms(ctx, g, allowed_atom, allowed_fact):
+    """atoms of a guard that are neither structurally allowed nor the time comparison"""
+    out = []
+    for conj in g:
+        for a in conj:
+            if allowed_atom(a):
+                continue
+            fs = atoms.atom_facts(ctx.facts, a)
+            if fs and all(allowed_fact(f) for f in fs):
+                continue
+            out.append(mir.render_atom(a)[:160])
+    return sorted(set(out))
+
+
 def r1(ctx):
     b = ctx.fbody(name="update_from_balance", self_adt=ASSET, trait="")
     n = 0
@@ -55,6 +69,11 @@ def r1(ctx):
         ctx.check("AssetState::update_from_balance:%s" % e["what"], ok,
                   "store of balance data must be guarded by `held.time <= snapshot.time_exchange` (or nothing held)",
                   sites=[e["sp"]], got=render_guard(g), key=e["what"])
+        extra = _extra_atoms(ctx, g, lambda a: a[0] == "is" and render(a[1]) == "self.balance",
+                             lambda f: f[0] in ("le", "lt") and render(f[1]).startswith("self.balance") and atoms.mentions_param(f[2], "snapshot"))
+        ctx.check("AssetState::update_from_balance:%s" % e["what"], not extra,
+                  "the update depends on nothing but 'is a balance held' and the time order: a message that is not older is always applied "
+                  "(otherwise the held timestamp would fall behind)", sites=[e["sp"]], got=extra, key=e["what"] + ":only-time")
         # time and value from the same message
         if e["kind"] == "store":
             v = e["value"]
@@ -94,6 +113,14 @@ def r2(ctx):
             ctx.check("DefaultInstrumentMarketData::process:%s" % field, ok,
                       "update of `%s` must be guarded by `held time < event.time_exchange`" % field,
                       sites=[e["sp"]], got=render_guard(g), key="guard")
+            extra = _extra_atoms(ctx, g,
+                                 lambda a: (a[0] == "is" and render(a[1]) == "event.kind") or
+                                           (a[0] == "is" and a[1][0] == "call" and a[1][1].endswith("from_f64") and a[2] == frozenset(["Some"])),
+                                 lambda f: f[0] in ("le", "lt") and render(f[1]).startswith("self." + field) and render(f[2]) == "event.time_exchange")
+            ctx.check("DefaultInstrumentMarketData::process:%s" % field, not extra,
+                      "the update depends on nothing but the event kind, the time order and the price conversion: a newer event is always "
+                      "applied (otherwise the held timestamp falls behind and a later stale event is accepted)",
+                      sites=[e["sp"]], got=extra, key="only-time")
             # value: from the same event
             v = e.get("value") or (e["args"][1] if len(e.get("args", [])) > 1 else None)
             if v is not None:
@@ -138,6 +165,22 @@ def r4(ctx):
     ctx.check("EngineState::update_from_account:Snapshot-arm", need <= set(names),
               "the full-snapshot arm must route balances and orders item by item through the guarded updaters",
               got=names, want=sorted(need), key="routes")
+    # the items handed to the guarded updaters are the event's own payload items, unmodified
+    want_args = {
+        "AssetState::update_from_balance": {"Snapshot::Snapshot{0: Iterator::next(event.kind.as:Snapshot.0.balances).as:Some.0}",
+                                            "Snapshot::Snapshot{0: event.kind.as:BalanceSnapshot.0.0}"},
+        "InstrumentState::update_from_account_snapshot": {"Iterator::next(event.kind.as:Snapshot.0.instruments).as:Some.0"},
+        "InstrumentState::update_from_order_snapshot": {"Snapshot::Snapshot{0: event.kind.as:OrderSnapshot.0.0}"},
+    }
+    n_args = 0
+    for bi, t, term in calls:
+        nm = mir.short(term[1])
+        if nm in want_args:
+            n_args += 1
+            ctx.check("EngineState::update_from_account:%s" % nm, render(term[2][1]) in want_args[nm],
+                      "the timestamped item applied is the event's own payload item, unmodified (its own exchange time decides)",
+                      sites=[t["sp"]], got=render(term[2][1])[:200], want=sorted(want_args[nm]), key="payload")
+    ctx.floor("payload hand-offs in update_from_account", n_args, 4)
     # InstrumentState::update_from_account_snapshot -> orders only via update_from_order_snapshot
     s = ctx.fbody(name="update_from_account_snapshot", self_adt="barter::engine::state::instrument::InstrumentState", trait="")
     st = s.stores()
